@@ -81,7 +81,7 @@ def isCont : StepOut → Bool
 def sendOp (s : Sess) (inp : Option Batch) (coerce : Option Exn) : OpOut × Sess :=
   if s.closed then (⟨[closedErr], []⟩, s)
   else match s.initErr with
-    | some e => (⟨[errEv e], []⟩, { s with carry := [], srvDone := true, closed := true })
+    | some e => (⟨(readUntilData s.carry).1 ++ [errEv e], []⟩, { s with carry := [], srvDone := true, closed := true })
     | none =>
       if s.srvDone then finishRead s inp.isNone [] (readUntilData s.carry)
       else
@@ -94,7 +94,7 @@ def step (a : St) : Op → OpOut × St
   | .call logs out req => if isOpen a then (⟨[], []⟩, a) else (⟨Sem.unary logs out, req.toList⟩, a)
   | .openS exch _ init il steps =>
       if isOpen a then (⟨[], []⟩, a)
-      else (⟨[], []⟩, some ⟨exch, init, (match init with | some _ => [] | none => logItems il), steps, init.isSome, false⟩)
+      else (⟨[], []⟩, some ⟨exch, init, logItems il, steps, init.isSome, false⟩)
   | .tick => match a with
       | some s => let p := sendOp s none none; (p.1, some p.2)
       | none => (⟨[], []⟩, a)
